@@ -108,6 +108,8 @@ type world struct {
 	stdlogs  []*log.Logger
 	grpcs    []*zapgrpc.Logger
 	lazyN    int
+	// a field slice the program keeps and passes to many calls, from many goroutines (read-only for zap)
+	keptFields []zap.Field
 }
 
 func encCfg(g *rng.R) zapcore.EncoderConfig {
@@ -178,6 +180,7 @@ func nopSampleHook(zapcore.Entry, zapcore.SamplingDecision) {}
 // buildWorld creates the shared objects of one program.
 func buildWorld(g *rng.R) *world {
 	w := &world{atom: zap.NewAtomicLevelAt(zapcore.Level(g.Range(-1, 1))), atom2: zap.NewAtomicLevel(), clk: &hclock{}}
+	w.keptFields = []zap.Field{zap.Skip(), zap.String("kept", "one"), zap.Error(nil), zap.Int("kept2", 2), zap.NamedError("none", nil), zap.Bool("kept3", true)}
 	enab := func() zapcore.LevelEnabler {
 		switch g.Intn(4) {
 		case 0:
@@ -421,6 +424,20 @@ var ops = []opFn{
 		d := wk.logger().With(someFields(wk.g, wk.g.Range(1, 3))...)
 		wk.keep(d)
 		return "Logger.With", ""
+	},
+	func(wk *worker) (string, string) {
+		fs := wk.w.keptFields
+		switch wk.g.Intn(4) {
+		case 0:
+			wk.keep(wk.logger().With(fs...))
+		case 1:
+			wk.keep(wk.logger().WithLazy(fs...))
+		case 2:
+			wk.logger().Info(wk.msg(), fs...)
+		default:
+			wk.logger().WithOptions(zap.Fields(fs...)).Warn(wk.msg(), fs...)
+		}
+		return "calls sharing one caller-owned field slice (Skip fields among real ones)", ""
 	},
 	func(wk *worker) (string, string) {
 		d := wk.logger().WithLazy(someFields(wk.g, wk.g.Range(1, 3))...)
